@@ -108,6 +108,8 @@ class BacktrackSolver(Solver):
         :param log_level: the log level as a string
         """
         super().__init__(problem, log_level)
+        if not 2 <= stack_max_height <= 256:
+            raise ValueError("stack_max_height must be between 2 and 256 (the stack pointer is 8-bit)")
         decision_domains = list(range(problem.shr_domain_nb)) if decision_domains is None else decision_domains
         logger.info(f"BacktrackSolver uses decision domains {decision_domains}")
         self.decision_domains = np.array(decision_domains, dtype=np.uint16)
@@ -525,7 +527,10 @@ def solve_one(
         consistency_alg_fct = function_from_address(TYPE_CONSISTENCY_ALG, consistency_alg_addrs[consistency_alg_idx])
         var_heuristic_fct = function_from_address(TYPE_VAR_HEURISTIC, var_heuristic_addrs[var_heuristic_idx])
         dom_heuristic_fct = function_from_address(TYPE_DOM_HEURISTIC, dom_heuristic_addrs[dom_heuristic_idx])
+    stack_height = len(shr_domains_stack)
     while True:
+        if int(stacks_top[0]) + 1 >= stack_height:  # a consistency algorithm may push one level
+            raise IndexError("choice point stack overflow, increase stack_max_height")
         status = consistency_alg_fct(
             statistics,
             algorithms,
@@ -549,6 +554,8 @@ def solve_one(
             statistics[STATS_IDX_SOLVER_SOLUTION_NB] += 1
             return get_solution(shr_domains_stack, stacks_top, dom_indices_arr, dom_offsets_arr)
         elif status == PROBLEM_UNBOUND:
+            if int(stacks_top[0]) + 2 >= stack_height:  # a branching decision may push two levels
+                raise IndexError("choice point stack overflow, increase stack_max_height")
             dom_idx = var_heuristic_fct(var_heuristic_params, decision_domains, shr_domains_stack, stacks_top)
             events = dom_heuristic_fct(
                 dom_heuristic_params,
